@@ -34,7 +34,7 @@ META = {
     "assumptions": ["bit-identity of floats is outside: equality of result *terms* over the reals is shown",
                     "earlier calls run on their own symbol families (suffix @c<i>); a leak shows up as a foreign symbol "
                     "or as an unequal term", "user_pf_options['hyd_flag'] is the documented exception of 'unchanged'"],
-    "bound": {"quick": "purity on 6 structures x modes; 9 histories of length 2-3 on 3 structures, with and without havoc",
+    "bound": {"quick": "purity on 8 structures x modes; 9 histories of length 2-3 on 3 structures, with and without havoc",
               "thorough": "histories of length <=3 over modes x {numba, update-matrix, reuse} x (success|forced failure) on 6 structures"},
     "outside": ["histories longer than 3 calls", "float bit patterns"],
     "rule": "purity: one obligation per input cell (evaluated identity / term equality); history: system entries + result cells",
@@ -282,7 +282,8 @@ def replay_heat(rs):
 def jobs(tier, seed):
     out = []
     pur = [(catalog.w_line3(), "hydraulics"), (catalog.w_components(), "hydraulics"), (catalog.g_components(), "hydraulics"),
-           (catalog.w_circ_loop(), "sequential"), (catalog.w_circ_mass(), "bidirectional"), (catalog.w_oos(), "hydraulics")]
+           (catalog.w_circ_loop(), "sequential"), (catalog.w_circ_mass(), "bidirectional"), (catalog.w_oos(), "hydraulics"),
+           (catalog.w_nan_loads(), "hydraulics"), (catalog.w_heat_reversed(), "sequential")]
     for s, m in pur:
         for numba in (False, True):
             out.append({"name": "purity/%s/%s/%s" % (s["name"], m, "numba" if numba else "numpy"), "kind": "purity", "spec": s,
@@ -299,7 +300,7 @@ def jobs(tier, seed):
             for havoc in (True, False):
                 out.append({"name": "history/%s/%s/%s" % (s["name"], hn, "havoc" if havoc else "iterate"), "kind": "history",
                             "spec": s, "pre": pre, "last": last, "havoc": havoc, "numba": False})
-    for s in [catalog.w_circ_loop(), catalog.w_circ_mass()]:
+    for s in [catalog.w_circ_loop(), catalog.w_circ_mass(), catalog.w_heat_reversed(), catalog.w_heat_line()]:
         out.append({"name": "heat_after_hyd/%s" % s["name"], "kind": "heat", "spec": s, "numba": False})
     return out
 
